@@ -30,7 +30,7 @@ Add(b, tpl, m0) == [New(b, tpl, m0, <<>>) EXCEPT !.op = "add"]
 Alpha ==
     CASE Family = "single" ->
             [multi |-> FALSE, w |-> 8, h |-> 12, news |-> <<New(1, "MnC", <<109>>, <<>>)>>,
-             a0 |-> {OpM("suspend", 1, <<83>>), OpM("println", 1, <<76>>), OpM("set_message", 1, <<120, 121>>), Op("finish", 1), Op("finish_and_clear", 1), Op("reset", 1)},
+             a0 |-> {OpM("suspend", 1, <<83, 10, 84>>), OpM("println", 1, <<76>>), OpM("set_message", 1, <<120, 121>>), Op("finish", 1), Op("finish_and_clear", 1), Op("reset", 1)},
              a1 |-> {Op("tick", 1), OpN("inc", 1, 1), OpM("println", 1, <<80>>), OpM("set_message", 1, <<122>>), OpM("suspend", 1, <<85>>), OpM("finish_with_message", 1, <<100>>)}]
       [] Family = "tabs" ->
             [multi |-> FALSE, w |-> 30, h |-> 6, news |-> <<New(1, "PM", <<97, TAB, 98>>, <<112, TAB>>)>>,
@@ -38,7 +38,7 @@ Alpha ==
              a1 |-> {OpN("set_tab_width", 1, 2), OpN("set_tab_width", 1, 0), OpM("set_message", 1, <<TAB, 122>>)}]
       [] Family = "multi" ->
             [multi |-> TRUE, w |-> 8, h |-> 14, news |-> <<Add(1, "MnC", <<97>>), Add(2, "M", <<98>>)>>,
-             a0 |-> {OpM("mp_suspend", 0, <<83>>), OpM("suspend", 1, <<84>>), OpM("mp_println", 0, <<76>>), OpM("println", 2, <<77>>), OpM("set_message", 1, <<120>>), Op("finish", 1), Op("finish_and_clear", 1)},
+             a0 |-> {OpM("mp_suspend", 0, <<83, 10, 86>>), OpM("suspend", 1, <<84>>), OpM("mp_println", 0, <<76>>), OpM("println", 2, <<77>>), OpM("set_message", 1, <<120>>), Op("finish", 1), Op("finish_and_clear", 1)},
              a1 |-> {Op("tick", 2), OpN("inc", 1, 1), OpM("set_message", 2, <<122>>), OpM("println", 1, <<80>>), OpM("mp_println", 0, <<81>>), Op("finish", 2), OpM("suspend", 2, <<85>>)}]
 
 A == Alpha
